@@ -169,6 +169,7 @@ fn c15_merge_many_windows() {
 // @functions utils::merge::merge_sections_many / ValueIter::next on ONE input stream (window accumulation, run extraction, last_val hand-over between windows), work-window constant reduced from 50,000 to 4 bases by source substitution
 // @bounds one stream with two values, the first inside window [0,4), the second inside window [4,8) (symbolic positions), values 1.0 and 2.0; the merged stream is drained (<= 4 next() calls) and compared with the input at every base 0..8
 // @assumes sorted, non-overlapping, non-empty values
+// @measured timeout after 3600 s, still in symbolic execution; kept off, not part of any claim
 // @cut several streams (sums), values crossing a window boundary, the real window size
 // @witness cover: a gap between the two values; the second value starts exactly at the window boundary
 #[kani::proof]
